@@ -9,6 +9,7 @@ import coqrun
 import gens
 import mcase
 import lcase
+import bcase
 import qcase
 from gens import CHILD, derive_path, rand_doc, small_scope, SMALL_STEPS_CHILD, SMALL_STEPS_FULL, SMALL_DOCS
 from terms import otree_diff, otree_to_json
@@ -32,6 +33,7 @@ FAMILIES = {
     'q': dict(printer=qcase.g_qcase, run_fn="(run_qcase BUDGET)", case_type="qcase", imports=""),
     'm': dict(printer=mcase.g_mcase, run_fn="(run_mcase BUDGET)", case_type="mcase", imports=" Mutate RunM"),
     'l': dict(printer=lcase.g_lcase, run_fn="run_lcase", case_type="lcase", imports=" DocList RunL"),
+    'b': dict(printer=bcase.g_bcase, run_fn="(run_bcase BUDGET)", case_type="bcase", imports=" Builder"),
 }
 
 
@@ -851,6 +853,32 @@ REGISTRY['C19'] = dict(level='proof', gen=gen_C19, nontrivial=nontrivial_C19,
                        obligations=[])
 
 
+def gen_C15(rng, tier):
+    return [{'family': 'b', 'case': bcase.gen_bcase(rng)} for _ in range(sized(tier, 2000, 25000))]
+
+
+def oracle_C15(case, o):
+    """an expression never changes its rendering once it exists"""
+    errs = []
+    seen = {}
+    for x in o[2]:
+        st = x[2][1][2]
+        for i, sx in enumerate(st):
+            if i in seen and seen[i] != sx:
+                errs.append("expression %d rendered %r earlier and %r now" % (i, seen[i][1], sx[1]))
+            seen[i] = sx
+    return errs
+
+
+REGISTRY['C15'] = dict(level='proof', gen=gen_C15, oracle=oracle_C15,
+                       nontrivial=lambda c, o: len(scan(o, 'result')) >= 1 and len(c['case']['ops']) >= 5,
+                       rule="derivation DAGs: expressions derived from shared prefixes (path and pathd roots, attribute vs item keys "
+                            "with dashed / underscored names, every step kind and spelling), interleaved with evaluations; str() and "
+                            "repr() of every live expression after every operation, results of the evaluated ones; non-trivial = >= 5 "
+                            "operations and >= 1 result",
+                       obligations=[])
+
+
 def leaks_C14(o):
     # m.data = v on a list index that disappeared raises IndexError (outside the property's statement, DESIGN 7.4)
     return [e for e in leaks(o) if 'IndexError' not in e and 'AttributeError' not in e and 'TypeError' not in e]
@@ -969,9 +997,12 @@ def shrink(case, ob, why, build_ok, rounds=8):
         cands = list(candidates(cur))[:60]
         if not cands:
             break
-        obs = check.run_impl(cands, timeout=120)
-        ok = [i for i, o in enumerate(obs) if not isinstance(o, dict)]
-        mism, _ = compare_cases([cands[i] for i in ok], [obs[i] for i in ok])
+        try:
+            obs = check.run_impl(cands, timeout=120)
+            ok = [i for i, o in enumerate(obs) if not isinstance(o, dict)]
+            mism, _ = compare_cases([cands[i] for i in ok], [obs[i] for i in ok])
+        except Exception:  # a malformed candidate: keep what we have
+            break
         if not mism:
             break
         cur = cands[ok[mism[0][0]]]
@@ -988,7 +1019,7 @@ def candidates(case):
         n = copy.deepcopy(c)
         del n[key][i]
         yield {'family': fam, 'case': n}
-    for i, cmd in enumerate(seq):
+    for i, cmd in enumerate(seq if fam in ('q', 'm') else []):
         for j, a in enumerate(cmd):
             if isinstance(a, list) and a and isinstance(a[0], (list, tuple)):
                 for k in range(len(a)):
@@ -996,24 +1027,27 @@ def candidates(case):
                     n[key][i] = list(n[key][i])
                     n[key][i][j] = a[:k] + a[k + 1:]
                     yield {'family': fam, 'case': n}
-    d = c['doc']
+    dkey = 'doc' if 'doc' in c else ('items' if 'items' in c else None)
+    if dkey is None:
+        return
+    d = c[dkey]
     if isinstance(d, dict):
         for k in list(d.keys()):
             n = copy.deepcopy(c)
-            del n['doc'][k]
+            del n[dkey][k]
             yield {'family': fam, 'case': n}
             if isinstance(d[k], (dict, list)):
                 n = copy.deepcopy(c)
-                n['doc'] = n['doc'][k]
+                n[dkey] = n[dkey][k]
                 yield {'family': fam, 'case': n}
     elif isinstance(d, list):
         for k in range(len(d)):
             n = copy.deepcopy(c)
-            del n['doc'][k]
+            del n[dkey][k]
             yield {'family': fam, 'case': n}
             if isinstance(d[k], (dict, list)):
                 n = copy.deepcopy(c)
-                n['doc'] = n['doc'][k]
+                n[dkey] = n[dkey][k]
                 yield {'family': fam, 'case': n}
 
 
@@ -1037,7 +1071,6 @@ def replay(prop, path):
 
 
 NOT_BUILT = {
-    'C15': "builder model and check not built yet (work in progress, DESIGN.md 6/C15)",
     'C18': "descriptor model and check not built yet (work in progress, DESIGN.md 6/C18)",
 }
 for _pid, _spec in REGISTRY.items():
